@@ -131,3 +131,44 @@ func Built() []Seed {
 
 // All returns Repo() + Built().
 func All() []Seed { return append(Repo(), Built()...) }
+
+// Hostile returns tiny hand-built malformed files that sit on known parser edges.
+func Hostile() []Seed {
+	var out []Seed
+	add := func(name string, d []byte) { out = append(out, Seed{Name: "hostile/" + name, Data: d, Map: build.Parse(d), Kind: kindOf(d)}) }
+	for n := 0; n <= 5; n++ { // SOF payload shorter than the 5 bytes the reader indexes
+		d := []byte{0xFF, 0xD8, 0xFF, 0xC0, 0, byte(2 + n)}
+		d = append(d, make([]byte, n)...)
+		d = append(d, 0xFF, 0xDA, 0, 2, 1, 2, 0xFF, 0xD9)
+		add(fmt.Sprintf("jpeg-sof-len%d", n), d)
+	}
+	add("jpeg-seglen-0", []byte{0xFF, 0xD8, 0xFF, 0xE0, 0, 0, 0xFF, 0xC0, 0, 8, 8, 0, 1, 0, 1, 0, 0xFF, 0xD9})
+	add("jpeg-seglen-1", []byte{0xFF, 0xD8, 0xFF, 0xE2, 0, 1, 0xFF, 0xC2, 0, 8, 8, 0, 1, 0, 1, 0, 0xFF, 0xD9})
+	add("jpeg-app2-short", []byte{0xFF, 0xD8, 0xFF, 0xE2, 0, 15, 'I', 'C', 'C', '_', 'P', 'R', 'O', 'F', 'I', 'L', 'E', 0, 1, 0xFF, 0xC0, 0, 8, 8, 0, 1, 0, 1, 0})
+	add("jpeg-icc-total0", []byte{0xFF, 0xD8, 0xFF, 0xE2, 0, 16, 'I', 'C', 'C', '_', 'P', 'R', 'O', 'F', 'I', 'L', 'E', 0, 1, 0, 0xFF, 0xC0, 0, 8, 8, 0, 1, 0, 1, 0})
+	add("jpeg-rst-in-header", []byte{0xFF, 0xD8, 0xFF, 0xD0, 0xFF, 0xD8, 0xFF, 0xC0, 0, 8, 8, 0, 1, 0, 1, 0, 0xFF, 0xDA, 0, 2, 0xFF, 0, 0xFF, 0xD7, 0xFF, 0xFF, 0xD9})
+	for _, n := range []uint32{0, 1, 8, 9, 12, 14, 0xFFFFFFFF, 0x80000000} { // IHDR length edges
+		d := append([]byte(nil), build.PNGSig...)
+		d = append(d, byte(n>>24), byte(n>>16), byte(n>>8), byte(n), 'I', 'H', 'D', 'R', 0, 0, 0, 1, 0, 0, 0, 1, 8, 2, 0, 0, 0, 1, 2, 3, 4, 0, 0, 0, 0, 'I', 'D', 'A', 'T')
+		add(fmt.Sprintf("png-ihdr-len%x", n), d)
+	}
+	// iCCP edges: no terminator within 80 bytes, name only, declared length smaller than name
+	base := append(append([]byte(nil), build.PNGSig...), 0, 0, 0, 13, 'I', 'H', 'D', 'R', 0, 0, 0, 1, 0, 0, 0, 1, 8, 2, 0, 0, 0, 1, 2, 3, 4)
+	long := append(append([]byte(nil), base...), 0, 0, 0, 100, 'i', 'C', 'C', 'P')
+	for i := 0; i < 104; i++ {
+		long = append(long, 'a')
+	}
+	add("png-iccp-no-terminator", long)
+	add("png-iccp-len2", append(append([]byte(nil), base...), 0, 0, 0, 2, 'i', 'C', 'C', 'P', 'a', 0, 0, 1, 2, 3, 4))
+	add("png-iccp-len3-badmethod", append(append([]byte(nil), base...), 0, 0, 0, 3, 'i', 'C', 'C', 'P', 'a', 0, 9, 1, 2, 3, 4))
+	add("png-iccp-huge", append(append([]byte(nil), base...), 0xFF, 0xFF, 0xFF, 0xFF, 'i', 'C', 'C', 'P', 'a', 0, 0, 0x78, 0x9c))
+	add("png-iccp-before-ihdr", append(append(append([]byte(nil), build.PNGSig...), 0, 0, 0, 4, 'i', 'C', 'C', 'P', 'a', 0, 0, 0x78, 1, 2, 3, 4), base[8:]...))
+	// WebP edges
+	add("webp-vp8x-len9", []byte("RIFF\x1a\x00\x00\x00WEBPVP8X\x09\x00\x00\x00\x20\x00\x00\x00\x01\x00\x00\x01\x00"))
+	add("webp-vp8x-flag-eof", []byte("RIFF\x16\x00\x00\x00WEBPVP8X\x0a\x00\x00\x00\x20\x00\x00\x00\x01\x00\x00\x01\x00\x00"))
+	add("webp-iccp-huge", []byte("RIFF\x1e\x00\x00\x00WEBPVP8X\x0a\x00\x00\x00\x20\x00\x00\x00\x01\x00\x00\x01\x00\x00ICCP\xff\xff\xff\xffab"))
+	add("webp-vp8-badstart", []byte("RIFF\x16\x00\x00\x00WEBPVP8 \x0a\x00\x00\x00\x00\x00\x00\x9d\x01\x2b\x01\x00\x01\x00"))
+	add("webp-riff-only", []byte("RIFF\xff\xff\xff\xffWEBP"))
+	add("webp-unknown-chunk", []byte("RIFF\x10\x00\x00\x00WEBPJUNK\x04\x00\x00\x00abcd"))
+	return out
+}
